@@ -293,6 +293,10 @@ func ParentMain(propID, tier string, replayFile string) int {
 						}
 						continue
 					}
+					if exit == ExitHang && p.HangCPUSeconds == 0 {
+						addInc(fmt.Sprintf("case %d exceeded the harness CPU guard (900 CPU-s); no termination verdict is claimed by this property", idx))
+						return
+					}
 					// Confirm by re-running that case alone in a fresh process.
 					ca := a
 					ca.Only = idx
